@@ -15,7 +15,8 @@ RULE = (
     "case = element-tree recipe (shared elements/classes, properties, tuple items, compositions, "
     "defaults) x 2-4 threads each with 2-4 values (both verdicts) x a schedule = list of (gap, pick) "
     "pairs plus `focus` entries (module, n, pick: switch at the n-th line executed inside that statham "
-    "module) executed by an owned scheduler: real threads, exactly one runnable, a sys.settrace line "
+    "module) and optionally one `dense` module (switch at every line executed inside it, up to 400 times) "
+    "executed by an owned scheduler: real threads, exactly one runnable, a sys.settrace line "
     "hook in statham frames hands the baton after `gap` lines to the pick-th next thread - so a run "
     "is a deterministic function of (recipe, values, schedule). Oracle: every call's verdict kind and "
     "read-back result equal the sequential execution of the same calls on the same tree, and the tree "
@@ -82,8 +83,9 @@ def cases(draw):
     threads = [draw(st.lists(st.sampled_from(pool), min_size=2, max_size=5)) for _ in range(n)]
     schedule = draw(st.lists(st.tuples(st.one_of(st.integers(0, 30), st.integers(0, 400)), st.integers(1, 3)), min_size=4, max_size=40))
     focus = draw(st.lists(st.tuples(st.sampled_from(MODULES), st.integers(0, 40), st.integers(1, 3)), max_size=6))
+    dense = draw(st.lists(st.sampled_from(MODULES), max_size=1)) if draw(st.integers(0, 2)) == 0 else []
     return {"recipe": recipe, "threads": threads, "schedule": [list(x) for x in schedule],
-            "focus": [list(x) for x in focus]}
+            "focus": [list(x) for x in focus], "dense": dense}
 
 
 def observe_call(element, value):
@@ -116,7 +118,7 @@ def predicate(case, stats):
     if observe.snapshot(element) != snap0:
         # purity is C08's subject; without it the sequential baseline is meaningless
         stats.inconclusive["tree-changed-by-sequential-run"] += 1
-    sched = Scheduler(case["schedule"], focus=case.get("focus", ()))
+    sched = Scheduler(case["schedule"], focus=case.get("focus", ()), dense=case.get("dense", ()))
     fns = [(lambda vs=values: [observe_call(element, v) for v in vs]) for values in case["threads"]]
     try:
         got = sched.run(fns)
@@ -129,7 +131,7 @@ def predicate(case, stats):
     # the same schedule against a FRESH tree: first-ever calls race with each other (lazy initialisation)
     fresh = R.build(case["recipe"])
     snap_fresh = observe.snapshot(fresh)
-    sched2 = Scheduler(case["schedule"], focus=case.get("focus", ()))
+    sched2 = Scheduler(case["schedule"], focus=case.get("focus", ()), dense=case.get("dense", ()))
     fns2 = [(lambda vs=values: [observe_call(fresh, v) for v in vs]) for values in case["threads"]]
     try:
         got2 = sched2.run(fns2)
